@@ -1,38 +1,82 @@
 /-
   Scc.Fun2Core.SemSim12 — the chunk simulation: from related states (the Fun machine about to
-  evaluate a term of the fragment, the Core machine about to run its translation) both machines
-  advance to related states or stop with the same result.
+  evaluate a term, the Core machine about to run its translation; the Fun state typed, `STM`) both
+  machines advance to related states or stop with the same result.
 -/
 import Scc.Fun2Core.SemSim13
+import Scc.Fun2Core.SemCod5
 
 namespace Scc.Fun2Core.Sem
-open Scc
+open Scc Scc.Fun2Core.Typed
 
 variable {q : Core.Prog} {p : Fun.CheckedProgram}
 
-theorem eval_sim (X : Ctx p q) : ChunkSim p q (R p q) := by
-  intro s S hR
+/-- one chunk from a pair of related states whose Fun state is typed -/
+theorem eval_chunk (X : Ctx p q) {s : Fun.State} {S : Core.State} (hR : R p q s S) (hT : STM p s) :
+    Chunk p q (R p q) true true (msize s) s S := by
   obtain ⟨stmt, ρ, out, n⟩ := S
   cases hR with
   | @eval t env k _ ρ0 c hg hc he hr hbd hag =>
     simp only at hc he hr hbd hag
     replace hg : good p t = true := hg
     cases t with
-    | var x ty chi => exact eval_direct X (t := .var x ty chi) rfl hg hc he hr hbd hag
-    | lit m => exact eval_direct X (t := .lit m) rfl hg hc he hr hbd hag
-    | op a o b => exact eval_direct X (t := .op a o b) rfl hg hc he hr hbd hag
-    | ctor K as ty => exact eval_direct X (t := .ctor K as ty) rfl hg hc he hr hbd hag
+    | var x ty chi =>
+      cases hkk : kkind k with
+      | false => exact eval_direct X (t := .var x ty chi) rfl hg hc he hr hbd hag hT hkk
+      | true => exact eval_var_cd X hc he hr hag hT hkk
+    | lit m =>
+      have hkk : kkind k = false := by
+        obtain ⟨τ, h1, h2⟩ := STM.eval_kind X.progM hT
+        simp only [getType, Option.some.injEq] at h1
+        subst h1
+        rw [← h2]; rfl
+      exact eval_direct X (t := .lit m) rfl hg hc he hr hbd hag hT hkk
+    | op a o b =>
+      have hkk : kkind k = false := by
+        obtain ⟨τ, h1, h2⟩ := STM.eval_kind X.progM hT
+        simp only [getType, Option.some.injEq] at h1
+        subst h1
+        rw [← h2]; rfl
+      exact eval_direct X (t := .op a o b) rfl hg hc he hr hbd hag hT hkk
+    | ctor K as ty =>
+      have hkk : kkind k = false := by
+        cases hT with
+        | eval Γ τ he' ht hk =>
+          have hk' := KTM.kind X.progM hk
+          simp only [TypedM] at ht
+          obtain ⟨_, _, d, c', hd, _⟩ := ht
+          rw [← hk', isCodataTy_of_dataDecl X.progM hd]
+      exact eval_direct X (t := .ctor K as ty) rfl hg hc he hr hbd hag hT hkk
     | ifc srt a b t1 e1 ty => exact eval_ifc X hg hc he hr hbd hag
     | ifz srt a t1 e1 ty => exact eval_ifz X hg hc he hr hbd hag
     | print nl a nx ty => exact eval_print X hg hc he hr hbd hag
-    | letIn x vt b i ty => exact eval_let X hg hc he hr hbd hag
-    | call f as ty => exact eval_call X hg hc he hr hbd hag
-    | case sc ta cs ty => exact eval_case X hg hc he hr hbd hag
-    | label a t1 ty => exact eval_label X hg hc he hr hbd hag
-    | goto a u ty => exact eval_goto X hg hc he hbd hag
+    | letIn x vt b i ty => exact eval_let X hg hc he hr hbd hag hT
+    | call f as ty => exact eval_call X hg hc he hr hbd hag hT
+    | case sc ta cs ty => exact eval_case X hg hc he hr hbd hag hT
+    | label a t1 ty => exact eval_label X hg hc he hr hbd hag hT
+    | goto a u ty => exact eval_goto X hg hc he hbd hag hT
     | exit u ty => exact eval_exit X hg hc he hbd hag
     | paren t1 => exact eval_paren hg hc he hr hbd hag
-    | new cs ty => simp [good] at hg
-    | dtor sc d ta as ty => exact eval_dtor X hg hc he hr hbd hag
+    | new cs ty => exact eval_new X hg hc he hr hbd hag hT
+    | dtor sc d ta as ty => exact eval_dtor X hg hc he hr hbd hag hT
+
+/-- related states with a typed Fun state -/
+def RT (p : Fun.CheckedProgram) (q : Core.Prog) : Fun.State → Core.State → Prop :=
+  fun s S => R p q s S ∧ STM p s
+
+/-- typing is preserved along a chunk -/
+theorem Chunk.typed (hP : ProgM p) {b c : Bool} {μ : Nat} {s : Fun.State} {S : Core.State}
+    (h : Chunk p q (R p q) b c μ s S) (hT : STM p s) : Chunk p q (RT p q) b c μ s S := by
+  rcases h with h | ⟨j, s1, s', o, i, S', h1, h2, h3, h4, h5, h6, h7⟩
+  · exact .inl h
+  · refine .inr ⟨j, s1, s', o, i, S', h1, h2, h3, h4, h5, h6, h7, ?_⟩
+    have hT1 := FStepsM_preserves hP h1 hT
+    rcases h2 with ⟨rfl, _⟩ | ⟨e, he, _⟩
+    · exact hT1
+    · exact stepM_preserves hP hT1 he
+
+theorem eval_sim (X : Ctx p q) : ChunkSim p q (RT p q) := by
+  intro s S hR
+  exact (eval_chunk X hR.1 hR.2).typed X.progM hR.2
 
 end Scc.Fun2Core.Sem
